@@ -313,3 +313,60 @@ func vp_C10_power_order() {
 		vpReach("a-wins", got[fa.EventID()])
 	}
 }
+
+// vp:check C10 both configs=version:2|10|12 K=24 timeout=1200 maporder=github.com/matrix-org/gomatrixserverlib.ResolveStateConflictsV2New|github.com/matrix-org/gomatrixserverlib.splitConflictedUnconflicted|github.com/matrix-org/gomatrixserverlib.eventMapFromEvents|github.com/matrix-org/gomatrixserverlib.kahnsAlgorithmUsingAuthEvents|github.com/matrix-org/gomatrixserverlib.kahnsAlgorithmUsingPrevEvents
+// vp:check C11 both configs=version:10|12 K=24 timeout=1200 maporder=github.com/matrix-org/gomatrixserverlib.ResolveStateConflictsV2New|github.com/matrix-org/gomatrixserverlib.splitConflictedUnconflicted|github.com/matrix-org/gomatrixserverlib.eventMapFromEvents|github.com/matrix-org/gomatrixserverlib.kahnsAlgorithmUsingAuthEvents|github.com/matrix-org/gomatrixserverlib.kahnsAlgorithmUsingPrevEvents
+// vp_C10_mainline: a fork of the power-levels event together with two conflicting topics that both cite one of the
+// two forked power-levels events (the one that wins the fork and so lies on the mainline, or the one that loses and
+// lies one step off it). Both topics have the same mainline position and distance, so they are ordered by timestamp
+// and ID and the later one wins - for both orders of the state sets and of the events inside them.
+func vp_C10_mainline() {
+	ver := RoomVersion(vpConfig("version"))
+	h := vpBaseRoom(ver)
+	base3 := []string{h.createID, "$join:x", "$pl:x"}
+	users := vpJObj(vpAlice, int64(100))
+	if vpIsV12(ver) {
+		users = vpJObj(vpBob, int64(10))
+	}
+	tsPA, tsPB := 10+vpNondetBits("ts.pla", 3), 10+vpNondetBits("ts.plb", 3)
+	plA := vpSetAuth(vpMkEvent(ver, "$pla:x", h.room, vpAlice, spec.MRoomPowerLevels, vpStrPtr(""), vpJObj("users", users, "state_default", int64(50), "ban", int64(60))), base3, tsPA, 4)
+	plB := vpSetAuth(vpMkEvent(ver, "$plb:x", h.room, vpAlice, spec.MRoomPowerLevels, vpStrPtr(""), vpJObj("users", users, "state_default", int64(50), "ban", int64(70))), base3, tsPB, 4)
+	cited := vpChoice("topics_cite", "$pla:x", "$plb:x")
+	tsA, tsB := 30+vpNondetBits("tsA", 4), 30+vpNondetBits("tsB", 4)
+	ta := vpSetAuth(vpMkEvent(ver, "$ta:x", h.room, vpAlice, "m.room.topic", vpStrPtr(""), vpJObj("topic", "A")), []string{h.createID, "$join:x", cited}, tsA, 5)
+	tb := vpSetAuth(vpMkEvent(ver, "$tb:x", h.room, vpAlice, "m.room.topic", vpStrPtr(""), vpJObj("topic", "B")), []string{h.createID, "$join:x", cited}, tsB, 5)
+	agreed := []PDU{h.create, h.join}
+	setA := []PDU{h.create, h.join, plA, ta}
+	setB := []PDU{h.create, h.join, plB, tb}
+	if vpNondetBool("topics_swapped") {
+		setA, setB = []PDU{h.create, h.join, plA, tb}, []PDU{h.create, h.join, plB, ta}
+	}
+	auth := []PDU{h.create, h.join, h.pl}
+	if vpIsV12(ver) {
+		auth = append(auth, plA, plB, ta, tb)
+	}
+	rev := func(s []PDU) []PDU {
+		r := make([]PDU, len(s))
+		for i := range s {
+			r[len(s)-1-i] = s[i]
+		}
+		return r
+	}
+	r1, err1 := ResolveConflictsNew(ver, [][]PDU{setA, setB}, auth, vpUserIDForSender, vpNotRejected)
+	vpMapOrderReset()
+	r2, err2 := ResolveConflictsNew(ver, [][]PDU{rev(setB), rev(setA)}, rev(auth), vpUserIDForSender, vpNotRejected)
+	vpAssert("no-error", err1 == nil && err2 == nil)
+	vpAssert("order-independent", vpSameIDSet(r1, r2))
+	got := vpIDSet(r1)
+	for _, e := range agreed {
+		vpAssert("agreed-events-kept", got[e.EventID()])
+	}
+	// the power-levels fork: same sender, so (timestamp, ID) decides; the later one is applied last
+	plBWins := tsPB > tsPA || (tsPB == tsPA && plB.EventID() > plA.EventID())
+	vpAssert("power-levels-winner", got[plB.EventID()] == plBWins && got[plA.EventID()] == !plBWins)
+	// the topics: same mainline position and distance whichever power-levels event they cite
+	tbWins := tsB > tsA || (tsB == tsA && tb.EventID() > ta.EventID())
+	vpAssert("topic-winner-by-timestamp-and-id", got[tb.EventID()] == tbWins && got[ta.EventID()] == !tbWins)
+	vpReach("topics-cite-the-losing-power-levels", (cited == "$plb:x") == !plBWins)
+	vpReach("topics-cite-the-winning-power-levels", (cited == "$plb:x") == plBWins)
+}
